@@ -121,3 +121,43 @@ def driver_universe(ex, ck, aborts=False, budget=None):
             k = r.randint(1, 30)
             ex.one(strategy, cfg, tc, content(tc), v[:k] + "R", stream="random-abort",
                    exc_class=r.choice(EXCS), replay=strategy != "minimize")
+
+
+def session_universe(ck, oracle, quick=True, strategies=("minimize", "minimize-around", "minimize-balanced")):
+    """consecutive runs on ONE Lithium / testcase / strategy object; `oracle(ck, ctx, run)` is applied to
+    every step with ctx describing that step alone"""
+    from runner import impl_session
+    r = rng("sessions")
+    files = [b"// h DDBEGIN\na\nb\nc\nd\n// DDEND f\ntail\n", b"one\ntwo\nthree\nfour\n", b"w\nx\ny\nz\n",
+             b"x\n(\n)\n", b"(\nx\n)\n", b"{\na\n}\nb\nb\n", b"a\nb\nc\nd\n"]
+    plans = []
+    for s1 in ("check-only",) + tuple(strategies):
+        for s2 in ("check-only",) + tuple(strategies):
+            for v1, v2 in (("Y", "N"), ("YNNY" * 5, "N"), ("Y", "Y" + "NY" * 20), ("N", "Y" * 50),
+                           ("YYNR", "YNY" * 10), ("YNNNNNNNNNNNNNNN", "YNNNNNNNNNNNNNNNNNN")):
+                plans.append((s1, s2, v1, v2))
+    r.shuffle(plans)
+    for s1, s2, v1, v2 in plans[: (60 if quick else 600)]:
+        f1, f2 = r.choice(files), r.choice(files)
+        steps = [{"strategy": s1, "cfg": {}, "atom": "line", "file0": f1, "verdict": v1},
+                 {"strategy": s2, "cfg": {}, "atom": "line", "file0": f2, "verdict": v2}]
+        runs = impl_session(steps)
+        for step, run in zip(steps, runs):
+            ck.count("session")
+            ck.nontrivial(("session", s1, s2, v1[:4], v2[:4], f1, f2))
+            ctx = {"strategy": step["strategy"], "cfg": {}, "tc": run.loaded, "file0": step["file0"],
+                   "verdicts": step["verdict"], "clock": [], "atom": "line", "exc_class": "TestRaised", "load": True,
+                   "session": [s1, s2, v1, v2, f1.hex(), f2.hex()]}
+            oracle(ck, ctx, run)
+    # a transient write fault while a candidate is being written: the run fails, the last accepted version is restored
+    for k in (1, 2, 3):
+        for v in ("YNY" * 10, "YYY", "YNNN"):
+            runs = impl_session([{"strategy": "minimize", "cfg": {}, "atom": "line",
+                                  "file0": b"// DDBEGIN\nl1\nl2\nl3\nl4\nl5\n// DDEND\n", "verdict": v, "write_fault": k}])
+            run = runs[0]
+            ck.count("write-fault")
+            ck.nontrivial(("write-fault", k, v))
+            ctx = {"strategy": "minimize", "cfg": {}, "tc": run.loaded, "file0": b"// DDBEGIN\nl1\nl2\nl3\nl4\nl5\n// DDEND\n",
+                   "verdicts": v, "clock": [], "atom": "line", "exc_class": "TestRaised", "load": True,
+                   "write_fault": k}
+            oracle(ck, ctx, run)
